@@ -117,6 +117,7 @@ def _compare(U, fn_name, arg, want, family, case, rec, ctx):
         rec.exception_violation("C08:%s-exception" % fn_name, family, case, "%s raised %s" % (fn_name, type(e).__name__), e)
         return None
     got = gmat.masks(res)
+    vals = set(np.unique(np.asarray(res)).tolist())      # read before the overwrite history below scribbles on res
     if sum(want) % 4 == 0:
         _gc.repeat_after_overwrite(rec, family, case, "C08", fn_name, getattr(U, fn_name), (np.array(arg, copy=True),), res)
     if got != want:
@@ -131,7 +132,6 @@ def _compare(U, fn_name, arg, want, family, case, rec, ctx):
         rec.violation("C08:%s-%s" % (fn_name, kind), family, case,
                       "%s differs from the essential graph of the class" % fn_name,
                       returned=_gc.rows(got), expected=_gc.rows(want), **ctx)
-    vals = set(np.unique(np.asarray(res)).tolist())
     if not vals <= {0, 1}:
         rec.violation("C08:%s-not-binary" % fn_name, family, case, "%s returned entries %s" % (fn_name, sorted(vals)), **ctx)
     return got
